@@ -231,6 +231,8 @@ class GrpcStorageProxy(BaseStorage):
         except grpc.RpcError as e:
             if e.code() == grpc.StatusCode.NOT_FOUND:
                 raise KeyError from e
+            elif e.code() == grpc.StatusCode.INVALID_ARGUMENT:
+                raise ValueError from e
             raise
         return response.trial_id
 
